@@ -55,8 +55,12 @@ def _while_inv(ex):
     e = ex.env
     counter, w, S = lift(e.lookup("counter")), lift(e.lookup("n_window_iter")), lift(e.lookup("n_slow_stage_iter"))
     sw = e.lookup("slow_windows")
+    def is_int(x):
+        # the havoc below re-introduces counter and n_window_iter as INTEGERS: that typing is part of the invariant and must be re-established by the body
+        # (window sizes are iteration counts; a real-valued running size would make sum(int(w_i)) differ from the counter)
+        return z3.IsInt(x) if z3.is_real(x) else z3.BoolVal(True)
     inv = [counter >= 0, counter <= S, w >= 1, lift(_lsum(sw)) == counter, lift(_llen(sw)) >= 0,
-           lift(_llen(sw)) <= counter]
+           lift(_llen(sw)) <= counter, is_int(counter), is_int(w)]
     if not isinstance(sw, SymList):
         inv.append(z3.BoolVal(all(ex.truth(lift(x) >= 1) for x in sw)))
     return z3.And(*inv)
